@@ -4,7 +4,8 @@ From Coq Require Import ZArith List Bool Arith.
 From Cspuz Require Import Lib.PyErr Core.Expr Core.Program Core.Build
   Graph.GraphModel Graph.ReachProofs Graph.Avc Graph.AvcProofs
   Graph.NotAdj Graph.NotAdjForest Graph.NotAdjDiag Graph.NotAdjBounded Graph.NotAdjBoundedIndep Graph.NotAdjSem Graph.NotAdjMain
-  Graph.NotAdjCompose Graph.NotAdjPlanarA Graph.NotAdjPlanarB Graph.NotAdjPlanarMain.
+  Graph.NotAdjCompose.
+From Cspuz Require Graph.NotAdjPlanarA Graph.NotAdjPlanarB Graph.NotAdjPlanarMain.
 Import ListNotations.
 Local Open Scope nat_scope.
 
